@@ -1253,7 +1253,7 @@ fn main() {
                             ps.push(Pos { pnl: -v, price: cost_p, qty: Decimal::ONE, time: T0 + 10 * SEC * j + 5 });
                         }
                         ps.push(Pos {
-                            pnl: Decimal::new(1, 4),
+                            pnl: Decimal::new(1, 1),
                             price: Decimal::new(70000, 0),
                             qty: Decimal::ONE,
                             time: T0 + DAY,
